@@ -341,7 +341,8 @@ class NetWorld(World):
                 return {"op": "break_weight", "s": s, "e": r.randrange(64)}
             if r.random() < 0.05:
                 return {"op": "inspect_edge", "s": s, "e": r.randrange(64),
-                        "how": r.choice(["constraint", "wkt", "length", "bbox", "copy", "noise", "simplify", "tail"])}
+                        "how": r.choice(["constraint", "wkt", "length", "bbox", "copy", "noise", "simplify", "tail",
+                                         "all_copy", "all_copy"])}
             u = r.random()
             if u < self.cfg.get("reweigh", 0) and not self.cfg["road"]:
                 return {"op": "set_weight", "s": s, "e": r.randrange(64),
@@ -375,7 +376,7 @@ class NetWorld(World):
                     self.pendq.setdefault(s, []).append({"op": "abs_again", "s": s, "twice": False})
                 return st
             if r.random() < self.cfg["reload"]:
-                st = {"op": "reload", "s": s, "sep": r.choice([",", ";"])}
+                st = {"op": "reload", "s": s, "sep": r.choice([",", ";"]), "weights": r.random() < 0.5}
                 if r.random() < self.cfg["fault_rate"]:
                     k = r.choice(["open_error", "write_error", "close_error", "read_error", "interrupt"])
                     st["fault"] = {"kind": k, "at": r.choice([1, 1, 2, 3]), "errno": 5}
@@ -980,16 +981,34 @@ class NetWorld(World):
             raise Skip()
         if any(len(e["pts"]) == 2 and e["pts"][0] == e["pts"][1] for e in m["edges"]):
             raise Skip()
-        if any(not isinstance(e["id"], str) for e in m["edges"]) or "" in m["nodes"]:
+        if any(not isinstance(e["id"], str) for e in m["edges"]) or "" in m["nodes"] or m.get("broken") is not None:
             raise Skip()            # a file stores identifiers as text: integer / empty identifiers do not survive by design
         path = "/sim/net%d.csv" % st.get("s", 0)
         self.fs.plan.arm(st.get("fault"))
         if st.get("fault"):
             self.stats["fault_armed:" + st["fault"]["kind"]] += 1
+        with_w = bool(st.get("weights")) and m["exact"]
+
         def write_then_read():
             NetworkWriter.writeToCsv(net, path, st["sep"], 1)
-            fmt = NetworkFormat({"pos_edge_id": 0, "pos_source": 1, "pos_target": 2, "pos_direction": 3,
-                                 "pos_wkt": 4, "separator": st["sep"], "header": 1, "srid": "ENU"})
+            if with_w:
+                # another program adds a weight column to the file (the writer has none): the weights
+                # of the model, printed exactly, zeros included
+                lines = self.fs.files[path].split("\n")
+                out = []
+                for k, ln in enumerate(lines):
+                    if not ln:
+                        out.append(ln)
+                        continue
+                    parts = ln.split(st["sep"], 4)
+                    w = "weight" if k == 0 else repr(float(m["edges"][k - 1]["w"]))
+                    out.append(st["sep"].join(parts[:4] + [w, parts[4]]))
+                self.fs.files[path] = "\n".join(out)
+                fmt = NetworkFormat({"pos_edge_id": 0, "pos_source": 1, "pos_target": 2, "pos_direction": 3,
+                                     "pos_weight": 4, "pos_wkt": 5, "separator": st["sep"], "header": 1, "srid": "ENU"})
+            else:
+                fmt = NetworkFormat({"pos_edge_id": 0, "pos_source": 1, "pos_target": 2, "pos_direction": 3,
+                                     "pos_wkt": 4, "separator": st["sep"], "header": 1, "srid": "ENU"})
             return NetworkReader.readFromFile(path, fmt, False)
         if (st.get("fault") or {}).get("kind") == "interrupt":
             with simfs.Interrupter(self.fs.plan):
@@ -1005,10 +1024,19 @@ class NetWorld(World):
                 return "fault"                 # the session keeps its in-memory network
             return self._unexpected("C06", exc, "network reload")
         self.real[st.get("s", 0)] = new
-        for e in m["edges"]:
-            e["w"] = plen(e["pts"])
-        m.update({"fw": None, "index": None, "prepared": None, "ptable": None, "grown_since_prepare": False,
-                  "exact": False, "all_abs": True})
+        if with_w:
+            self.probe("network_loaded_from_a_file_with_weights")
+            m.update({"fw": None, "index": None, "prepared": None, "ptable": None, "grown_since_prepare": False,
+                      "all_abs": True})
+        else:
+            for e in m["edges"]:
+                e["w"] = plen(e["pts"])
+            m.update({"fw": None, "index": None, "prepared": None, "ptable": None, "grown_since_prepare": False,
+                      "exact": False, "all_abs": True})
+        m.pop("shared", None)
+        m.pop("group", None)
+        m["broken"] = None
+        m["astar"] = False
         for k in [k for k in self.tracks if k[0] == st.get("s", 0)]:
             del self.tracks[k]
         self.probe("network_loaded_from_disk")
@@ -1080,6 +1108,11 @@ class NetWorld(World):
             if exc is None:
                 for o in cp:
                     o.position.setX(o.position.getX() + 7.0)        # the copy belongs to the caller
+        elif how == "all_copy":
+            coll, exc = self.call(lambda: net.getAllEdgeGeoms().copy())
+            if exc is None:
+                for tr in coll:
+                    tr.scale(0.9996)                    # the copy belongs to the caller
         elif how == "noise":
             import numpy
             from tracklib.algo.stochastics import noise
